@@ -29,6 +29,7 @@ and a recorded identity (0 included) is taken back unconditionally (shared
 with C11.4). Fourth round: C10.1 also requires the before/after snapshots to
 bracket every placement mutator and a failed restore to delete its record
 (shared with C09.3 / C09.4).
+Sweep: C10.1 the delete pass and the create pass of a publication are never cut short (shared with C09.3); C10.3 the repair at restart visits every entry of the integrity map and every server of an entry (loops never cut short).
 Does NOT decide that a restarted master completes start-up and republishes a
 placement equal to its model (behaviour of a run; see C09/C11).
 """
